@@ -174,6 +174,11 @@ def run(ctx):
             b = [(sh['label'], [(st['inv'], st['prop'], tuple(st['types']), st['card']) for st in sh['stmts']]) for sh in r2[1]['shapes']]
             if a != b or any(st['card'] in '?*' for sh in r1[1]['shapes'] for st in sh['stmts']):
                 viol.append({"what": "with the mode off a cardinality was rewritten (or depends on allow_opt_cardinality)", **pipeline.case_json(g, c1)})
+    # shape-map targets: the family of C10 (selection, shapes, exact figures), with inverse paths and removal of empty shapes as generated
+    v3, d3, st3 = base.shape_map_cases(ctx, 40 if ctx.tier == "quick" else 500, "conformance presupposes the right instances and figures")
+    viol += v3
+    dis += d3
+    stats["shape_map_cases"] = st3
     return base.std_result(ctx, cases, viol, dis, base.known_lines(kf, reproduced), stats, nontriv, [],
                            "70 % schema-consistent graphs (strict domain, keep_less_specific=True) and 30 % general graphs, threshold 0, "
                            "all_instances_are_compliant_mode on, the four remaining switches random; every (instance, shape) pair validated; "
